@@ -319,7 +319,7 @@ pub assume_specification [<{q} as PartialEq>::eq] (a: &{q}, b: &{q}) -> (r: bool
     # ---------- functions ----------
     def fn(self, path, impl, fn, requires=(), ensures=(), loops=None, ghost=(), subst=(), trait=None,
            erase_async=False, mut_self=False, ret_name='r', decreases=None, keep_macros=(), external_body=False,
-           let_chains=True, fmt=True, hash_loops=(), vis='pub', recommends=(), trait_full=None, keep_arms=None, as_inherent=False):
+           let_chains=True, fmt=True, hash_loops=(), vis='pub', recommends=(), trait_full=None, keep_arms=None, as_inherent=False, copied_loops=()):
         """Extract one fn verbatim and splice its contract.  Returns a list of Seg (to be put in an impl block).
         requires/ensures: list of (name, text).  loops: {ordinal: dict(invariant=[(name,text)], decreases=text, iter='vx_it')}
         ghost: list of (anchor, text) with anchor in ('body_start',), ('body_end',), ('loop_start',k), ('loop_end',k),
@@ -441,6 +441,19 @@ pub assume_specification [<{q} as PartialEq>::eq] (a: &{q}, b: &{q}) -> (r: bool
             edits.append((L['body'][0], L['body'][0], lsegs))
             if spec.get('iter') and L['kind'] == 'for':
                 edits.append((L['expr'][0], L['expr'][0], [Seg(spec['iter'] + ': ')]))
+        # R3
+        for k in copied_loops:
+            L = e['loops'][k]
+            s0, t0 = L['expr']
+            ex = src[s0:t0].decode()
+            m3 = re.search(r'\s*\.copied\(\)\s*$', ex)
+            if L['kind'] != 'for' or not m3:
+                raise ToolLimit(f'{fn}: R3 wants `for PAT in E.iter().copied()` at loop {k}')
+            pat = src[L['pat'][0]:L['pat'][1]].decode()
+            edits.append((L['pat'][0], L['pat'][1], [Seg(f'vx_c{k}')]))
+            edits.append((s0 + len(ex[:m3.start()].encode()), t0, []))
+            edits.append((L['body'][0] + 1, L['body'][0] + 1, [Seg(f' let {pat} = *vx_c{k}; ')]))
+            self._rw('R3')
         # R8
         for k in hash_loops:
             L = e['loops'][k]
@@ -612,6 +625,63 @@ pub assume_specification [<{q} as PartialEq>::eq] (a: &{q}, b: &{q}) -> (r: bool
             self.notes.append(f'assumed (external_body) contract on krill fn {fid}')
         self.extracted.append((path, f'fn {(impl + "::") if impl else ""}{fn}' + (' [signature only, body assumed]' if external_body else '')))
         return segs
+
+    def trait(self, path, name, methods=None, spec=''):
+        """Extract a trait declaration verbatim; methods: {fn name: [(clause name, ensures text)]} spliced before the `;`
+        of the method declaration; spec: extra `spec fn` declarations inserted at the start of the trait body."""
+        src, e = find(path, 'trait', trait=name)
+        a, b = e['item']
+        edits = []
+        for at in e.get('attrs', []):
+            edits.append((at['span'][0], at['span'][1], []))
+        _, items = _load(path)
+        tid = f'{self.prop}.{self.name}.trait {name}'
+        body_open = src.index(b'{', a)
+        edits.append((body_open + 1, body_open + 1, [Seg('\n' + spec + '\n')]))
+        for m in items:
+            if m['kind'] == 'fn' and m.get('trait') == name and m.get('impl') is None and a <= m['item'][0] < b:
+                for at in m.get('attrs', []):
+                    edits.append((at['span'][0], at['span'][1], []))
+                ens = (methods or {}).get(m['fn'])
+                if ens:
+                    if m['ret'] is not None:
+                        edits.append((m['ret'][0], m['ret'][0], [Seg('(r: ')]))
+                        edits.append((m['ret'][1], m['ret'][1], [Seg(')')]))
+                        self._rw('R9')
+                    segs = [Seg('\n        ensures\n')]
+                    for nm, text in ens:
+                        cid = f'{tid}::{m["fn"]}.ensures.{nm}'
+                        self.clauses[cid] = {'kind': 'trait-ensures', 'fn': tid, 'text': ' '.join(text.split())}
+                        segs += [Seg('            '), Seg(text, clause=cid, fn=tid), Seg(',\n')]
+                    end = m['sig'][1]
+                    edits.append((end, end, segs))
+        if e['vis'] is None:
+            pass
+        segs = _apply_edits(src, a, b, edits)
+        self.inside.extend(segs)
+        self.inside.append(Seg('\n'))
+        self.extracted.append((path, f'trait {name}'))
+
+    def const(self, path, impl, name, ensures=None):
+        """an associated/free const; with `ensures` it is emitted as Verus `exec const NAME: T ensures .. { init }` (R9)"""
+        src, e = find(path, 'const', **{'impl': impl, 'const': name})
+        a, b = e['item']
+        text = src[a:b].decode()
+        for at in e.get('attrs', []):
+            text = text.replace(src[at['span'][0]:at['span'][1]].decode(), '')
+        self.extracted.append((path, f'const {(impl + "::") if impl else ""}{name}'))
+        if ensures is None:
+            return [Seg(text.strip() + '\n')]
+        m = re.match(r'\s*(pub(?:\([a-z]+\))?\s+)?const\s+(\w+)\s*:\s*(.+?)\s*=\s*(.+);\s*$', text.strip(), re.S)
+        if not m:
+            raise ToolLimit(f'const {name}: unexpected shape')
+        self._rw('R9')
+        fid = f'{self.prop}.{self.name}.{(impl + "::") if impl else ""}{name}'
+        cid = f'{fid}.ensures.value'
+        self.clauses[cid] = {'kind': 'ensures', 'fn': fid, 'text': ensures}
+        self.functions.append({'id': fid, 'path': path, 'impl': impl, 'fn': name, 'clauses': [cid], 'loops': 0, 'trait': True})
+        return [Seg(f'/*VXFN {fid}*/ pub exec const {m.group(2)}: {m.group(3)}\n        ensures ', fn=fid), Seg(ensures, clause=cid, fn=fid),
+                Seg(f'\n    {{ {m.group(4)} }} /*VXEND {fid}*/\n', fn=fid)]
 
     def impl(self, header, fns):
         self.inside.append(Seg(header + ' {\n'))
